@@ -12,6 +12,7 @@ discretize's matrix) for the non-'same' gridding modes.
 Searcher: dot-product test over gridding modes and file_dir; FD of the data.
 """
 import os
+import re
 import shutil
 import tempfile
 
@@ -33,14 +34,26 @@ LEVEL_TEXT = (
     "weighted residual poses exactly the adjoint problem of the gradient; sums over source-frequency "
     "pairs accumulate; the model's volume-average pair (forward v_apply after the chain factor on the "
     "model grid in jvec, accumulating vt_add before the chain factor on the model grid in "
-    "gradient/jtvec) is a transpose pair for every entry list.")
+    "gradient/jtvec) is a transpose pair for every entry list. HISTORIES (Model/JtWeights.v: current "
+    "standard deviation of the survey, weights cached by the first misfit, misfit cache; operations "
+    "misfit / gradient / jvec / any noise-model change / clean('computed') / jtvec): by induction over "
+    "ALL operation sequences from ALL states with real non-zero standard deviations, jtvec never fails, "
+    "hands the back-propagation solve the source -P^T conj(w) -- independent of noise model, cached "
+    "weights and history, equal for a re-used and a fresh simulation --, satisfies the adjoint identity "
+    "on every reachable state, applied to the residual times the weights the state holds poses the "
+    "gradient's adjoint problem, and leaves the weight book-keeping as a misfit evaluation leaves it.")
 LEVEL_NOTE = (
     "Partial: exact linear solves are hypotheses (oracles in the correspondence; solver accuracy is "
     "C01), symmetry of K0 is C02, receiver rows C09. discretize's get_edge_inner_product_deriv and "
     "volume_average(...).T are third party: that the former equals e * M_e(vol dsigma) on the edges "
     "where e /= 0 is checked by the correspondence (model jvec_source vs the recorded source), that "
     "the latter is the transpose of emg3d's interp_volume_average is validated numerically per case "
-    "(C15 territory). The Python glue is a hand model tied at 1e-9 relative; rounding not modelled.")
+    "(C15 territory). The Python glue is a hand model tied at 1e-9 relative; rounding not modelled. "
+    "The weight state machine is a hand model of misfit/jvec/jtvec/_get_rfield/clean, tied by history "
+    "streams over every documented noise-model change (data['weights'] after every operation, source "
+    "of every back-propagation solve); NaN weights are outside it (fixed mask `fin`; vectors are zero "
+    "where the observation is NaN); survey.add_noise / compute(observed=True, add_noise=True) draw from an "
+    "unseedable generator and are exercised with add_noise=False only.")
 TECHNIQUE = ("Coq proof (abstract linear algebra, finite sums) + differential correspondence with "
              "recorded solver oracles (vm_compute on exact rationals)")
 DESIGN_REF = "DESIGN.md section 6 C08"
@@ -643,6 +656,332 @@ def history_dot_case(spec, mode, seed):
     return None, max(err, dev)
 
 
+# ------------------------------------ weight book-keeping histories (round 6)
+# One Simulation driven through public operations that (a) cache data.weights
+# (misfit / gradient / jtvec), (b) change the noise model of the survey in every
+# documented way, (c) call jtvec.  Coq: Model/JtWeights.v `trace` (state machine:
+# current standard deviation, cached weights, misfit cache) evaluated on the
+# same history; every observable (data.weights after every operation, the
+# source handed to every back-propagation solve) is compared.  Independently of
+# the Coq model: every jtvec result must equal that of a FRESH simulation and
+# satisfy the dot-product test with J v of the same object.
+WH_HEADER = (H.HEADER + "From V Require Import Model.JtWeights.\n"
+             "Definition trow : Type := (option (list (Q * Q)) * option (list (Q * Q)) * bool)%type.\n")
+WH_FILLERS = [['misfit'], ['gradient'], ['jvec', 'misfit'], ['jtvec'], ['jvec'],
+              ['misfit', 'jvec', 'gradient']]
+WH_CHANGES = ['nf_scalar', 'nf_array', 're_scalar', 're_array', 'std_array', 'std_none',
+              'observed_assign', 'compute_observed']
+WH_MODES = {'nf_scalar': ['scalar', 'nf_only', 'array_nf'], 'nf_array': ['array_nf', 'scalar', 'nf_only'],
+            're_scalar': ['scalar', 're_only', 'array_re'], 're_array': ['array_re', 're_only', 'scalar'],
+            'std_array': ['std', 'scalar', 're_only'], 'std_none': ['std', 'std', 'std'],
+            'observed_assign': ['re_only', 'scalar', 'array_re'],
+            'compute_observed': ['scalar', 're_only', 'array_nf']}
+WH_DOC = {'nf_scalar': 'survey.noise_floor = float', 'nf_array': 'survey.noise_floor = ndarray',
+          're_scalar': 'survey.relative_error = float', 're_array': 'survey.relative_error = ndarray',
+          'std_array': 'survey.standard_deviation = ndarray',
+          'std_none': 'survey.standard_deviation = None (back to noise_floor / relative_error)',
+          'observed_assign': "survey.data['observed'][...] = new data",
+          'compute_observed': 'simulation.compute(observed=True, add_noise=False)',
+          'pre_nf_re': 'survey.noise_floor = float; survey.relative_error = float',
+          'clean': "simulation.clean('computed')", 'misfit': 'simulation.misfit',
+          'gradient': 'simulation.gradient', 'jvec': 'simulation.jvec(v)', 'jtvec': 'simulation.jtvec(w)'}
+
+
+def wh_plan(klass):
+    """Deterministic enumeration: change kind x noise mode x cache-filling prefix."""
+    kind1 = WH_CHANGES[klass % len(WH_CHANGES)]
+    rnd = klass // len(WH_CHANGES)
+    mode = WH_MODES[kind1][rnd % 3]
+    filler = WH_FILLERS[(klass + 2 * rnd) % len(WH_FILLERS)]
+    kind2 = 'std_none' if (kind1 == 'std_array' and mode != 'std') else 'std_array'
+    ops = (['pre_nf_re'] if kind1 == 'std_none' else []) + list(filler) + \
+        [kind1, 'jtvec', kind2, 'jtvec', 'clean', 'jtvec']
+    return mode, ops
+
+
+def wh_change(sim, kind, npr, amp, floor0):
+    survey = sim.survey
+    shape = survey.shape
+    if kind == 'nf_scalar':
+        survey.noise_floor = floor0 * float(npr.choice([0.125, 4.0, 16.0]))
+    elif kind == 'nf_array':
+        survey.noise_floor = floor0 * 2.0 ** npr.randint(-3, 5, shape).astype(float)
+    elif kind == 're_scalar':
+        survey.relative_error = float(npr.choice([0.005, 0.25, 0.5]))
+    elif kind == 're_array':
+        survey.relative_error = npr.uniform(0.005, 0.5, shape)
+    elif kind == 'std_array':
+        survey.standard_deviation = amp * npr.uniform(0.01, 0.6, shape) + floor0 * npr.uniform(0.1, 3.0)
+    elif kind == 'std_none':
+        survey.standard_deviation = None
+    elif kind == 'pre_nf_re':
+        survey.noise_floor = floor0 * 2.0
+        survey.relative_error = 0.11
+    elif kind == 'observed_assign':
+        obs = np.array(survey.data.observed.data)
+        fac = npr.uniform(0.2, 4.0, shape) * np.exp(1j * npr.uniform(0, 2 * np.pi, shape))
+        survey.data['observed'][...] = obs * fac
+    elif kind == 'compute_observed':
+        sim.compute(observed=True, add_noise=False)
+    else:
+        raise ValueError(kind)
+
+
+def weights_history(spec, klass, seed, want_coq=True):
+    """Returns (coq text or None, record).  record['numeric'] holds the checks
+    that do not involve the Coq model (fresh simulation, dot-product test)."""
+    npr = np.random.RandomState(seed)
+    mode, ops = wh_plan(klass)
+    spec = dict(spec, noise_mode=mode)
+    v = model_vec(npr, spec)
+    amp = np.abs(np.array(spec['amp']))
+    floor0 = float(np.nanmedian(amp)) * 0.05
+    with H.quiet():
+        s0 = H.new_sim(spec, solver=H.TIGHT)
+    obs0 = np.array(s0.survey.data.observed.data)
+    fin0 = np.isfinite(obs0)
+    std0 = np.array(s0.survey.standard_deviation.data, dtype=float)
+    w0 = np.where(fin0 & np.isfinite(std0), std0, 1.0) ** -2
+    njt = ops.count('jtvec')
+    ys = [np.where(fin0, data_vec(npr, obs0.shape, amp * w0), 0.0) for _ in range(njt)]
+    steps, jv, kj = [], None, 0
+    with H.Recorder() as rec, H.quiet():
+        sim = H.new_sim(spec, solver=H.TIGHT)
+        for op in ops:
+            n0 = len(rec.calls)
+            st = {'op': op}
+            if op == 'misfit':
+                _ = sim.misfit
+            elif op == 'gradient':
+                _ = sim.gradient
+            elif op == 'jvec':
+                jv = np.array(sim.jvec(v.copy()))
+            elif op == 'clean':
+                sim.clean('computed')
+            elif op == 'jtvec':
+                st['y'] = ys[kj]
+                st['jt'] = np.array(sim.jtvec(ys[kj].copy()))
+                kj += 1
+            else:
+                wh_change(sim, op, npr, amp, floor0)
+            st['calls'] = rec.calls[n0:]
+            st['weights'] = (np.array(sim.data.weights.data, dtype=float)
+                             if 'weights' in sim.data.keys() else None)
+            sd = sim.survey.standard_deviation
+            st['std'] = None if sd is None else np.array(sd.data, dtype=float)
+            steps.append(st)
+        if jv is None:
+            jv = np.array(sim.jvec(v.copy()))
+        srcfreq = list(sim._srcfreq)
+        names_s = list(sim.survey.sources.keys())
+        names_f = list(sim.survey.frequencies.keys())
+        rows_all = [H.unit_rows(sim, sn, fn) for sn, fn in srcfreq]
+        smu0s = [complex(sim.get_efield(sn, fn).smu0) for sn, fn in srcfreq]
+    converged = all(not (isinstance(o[1], dict) and o[1].get('exit', 0) != 0) for _i, o in rec.calls)
+    # ---- numeric, independent of the Coq model
+    numeric = []
+    changed = []
+    prev = std0
+    for st in steps:
+        if st['op'] in WH_DOC and st['op'] not in ('misfit', 'gradient', 'jvec', 'jtvec', 'clean') \
+                and st['std'] is not None:
+            m = fin0 & np.isfinite(prev) & np.isfinite(st['std'])
+            changed.append(float(np.max(np.abs(st['std'][m] / prev[m] - 1.0))) if m.any() else 0.0)
+            prev = st['std']
+    with H.quiet():
+        jv_f = np.array(H.new_sim(spec, solver=H.TIGHT).jvec(v.copy()))
+    kj = 0
+    for n, st in enumerate(steps):
+        if st['op'] != 'jtvec':
+            continue
+        y, jt = st['y'], st['jt']
+        with H.quiet():
+            fresh = H.new_sim(spec, solver=H.TIGHT)
+            jt_f = np.array(fresh.jtvec(y.copy()))
+
+        def dot(jv_, jt_):
+            mask = fin0 & np.isfinite(jv_)
+            lhs = float(np.sum(np.conj(y[mask]) * jv_[mask]).real)
+            rhs = float(np.sum(jt_ * v))
+            scale = float(np.sum(np.abs(y[mask] * jv_[mask])))
+            return lhs, rhs, abs(lhs - rhs) / max(scale, 1e-300)
+        lhs, rhs, d_re = dot(jv, jt)
+        _l, _r, d_fr = dot(jv_f, jt_f)
+        dev = (float(np.max(np.abs(jt - jt_f)) / max(float(np.max(np.abs(jt_f))), 1e-300))
+               if jt.shape == jt_f.shape else float('inf'))
+        numeric.append({'step': n, 'jtvec_no': kj, 'Re<w,Jv>': lhs, '<JTw,v>': rhs, 'dot_relative': d_re,
+                        'dot_relative_fresh_simulation': d_fr,
+                        'max|JTw(re-used) - JTw(fresh)|/max|JTw(fresh)|': dev})
+        kj += 1
+    record = dict(mode=mode, ops=ops, steps=steps, numeric=numeric, converged=converged,
+                  std_changes=changed, klass=klass, fin0=fin0, srcfreq=srcfreq)
+    if not want_coq:
+        return None, record
+    # ---- Coq: the state machine per source-frequency pair
+    nrec = obs0.shape[1]
+    L = [WH_HEADER]
+    idxs = []
+    for k, (sn, fn) in enumerate(srcfreq):
+        si, fi = names_s.index(sn), names_f.index(fn)
+        rows = rows_all[k]
+        supp = np.zeros(rows[0].size, bool)
+        for r_ in rows:
+            supp |= (r_ != 0)
+        idx = list(np.flatnonzero(supp))
+        idxs.append(idx)
+        fk = fin0[si, :, fi]
+
+        def sdl(a):
+            return H.klist([a[si, j, fi] if (fk[j] and np.isfinite(a[si, j, fi])) else 1.0
+                            for j in range(nrec)])
+        cops = []
+        for st in steps:
+            op = st['op']
+            if op == 'misfit':
+                cops.append('OpMisfit')
+            elif op == 'gradient':
+                cops.append('OpGradient')
+            elif op == 'jvec':
+                cops.append('OpJvec')
+            elif op == 'clean':
+                cops.append('OpClean')
+            elif op == 'jtvec':
+                cops.append(f"OpJtvec (lk {H.klist(st['y'][si, :, fi])})")
+            else:
+                if st['std'] is None:
+                    raise RuntimeError('harness: noise model removed entirely')
+                cops.append(f"OpNoise (lk {sdl(st['std'])})")
+        L.append(f"Definition p_{k} := lkr [" + ';\n '.join(H.klist(r_[idx]) for r_ in rows) + "].")
+        L.append(f"Definition f_{k} := lkb [" + '; '.join(V.coq_bool(bool(fk[j])) for j in range(nrec)) + "].")
+        L.append(f"Definition ops_{k} : list (@wop (Q * Q) Z) := [" + ';\n '.join(cops) + "].")
+        L.append(f"Definition tr_{k} := trace cj (range {nrec}) {H.kq(smu0s[k])} p_{k} f_{k} "
+                 f"(range {len(idx)}) ops_{k} (fresh (lk {sdl(std0)})).")
+        L.append(f"Eval vm_compute in map (fun t : trow => (match fst (fst t) with Some l => 1%Z | None => 0%Z end, "
+                 f"if snd t then 1%Z else 0%Z)) tr_{k}.")
+        L.append(f"Eval vm_compute in map (fun t : trow => match fst (fst t) with Some l => map out_c l | None => [] end) tr_{k}.")
+        L.append(f"Eval vm_compute in map (fun t : trow => match snd (fst t) with Some l => map out_c l | None => [] end) tr_{k}.")
+    record['idxs'] = idxs
+    record['names'] = (names_s, names_f)
+    return '\n'.join(L) + '\n', record
+
+
+def _split_lists(ans):
+    """'[[a; b]; []; [c]]' -> list of inner strings."""
+    ans = ans.strip()
+    assert ans.startswith('[') and ans.endswith(']')
+    out, depth, start = [], 0, None
+    for i, ch in enumerate(ans[1:-1], 1):
+        if ch == '[':
+            if depth == 0:
+                start = i
+            depth += 1
+        elif ch == ']':
+            depth -= 1
+            if depth == 0:
+                out.append(ans[start:i + 1])
+    return out
+
+
+def wh_brief(spec, rec):
+    return dict(H.brief(dict(spec, noise_mode=rec['mode'])), history=[WH_DOC[o] for o in rec['ops']],
+                klass=rec['klass'])
+
+
+def compare_wh(spec, rec, out, dis):
+    b = wh_brief(spec, rec)
+    ans = V.eval_answers(out)
+    nsf = len(rec['srcfreq'])
+    steps = rec['steps']
+    if len(ans) != 3 * nsf:
+        dis.append({'what': 'weight-history model does not answer', 'case': b, 'log': out[-800:]})
+        return
+    names_s, names_f = rec['names']
+    for k, (sn, fn) in enumerate(rec['srcfreq']):
+        si, fi = names_s.index(sn), names_f.index(fn)
+        fk = rec['fin0'][si, :, fi]
+        flags = [int(x) for x in re.findall(r'-?\d+', ans[3 * k])]
+        wl = _split_lists(ans[3 * k + 1])
+        sl = _split_lists(ans[3 * k + 2])
+        if len(flags) != 2 * len(steps) or len(wl) != len(steps) or len(sl) != len(steps):
+            dis.append({'what': 'weight-history model: trace length', 'case': b})
+            return
+        for n, st in enumerate(steps):
+            has_m, raises_m = flags[2 * n], flags[2 * n + 1]
+            if raises_m:
+                dis.append({'what': 'weight-history model: jtvec raises on a state the implementation '
+                                    'handles', 'case': b, 'step': n})
+                return
+            if bool(has_m) != (st['weights'] is not None):
+                dis.append({'what': "data['weights'] present/absent differs from model (cached by the first "
+                                    "misfit, dropped by clean('computed') only)", 'case': b, 'step': n,
+                            'op': WH_DOC[st['op']], 'impl': st['weights'] is not None, 'model': bool(has_m)})
+                return
+            if has_m:
+                mod = np.array(H.parse_c(wl[n])).real
+                iv = st['weights'][si, :, fi]
+                ok = len(mod) == len(iv) and all(
+                    (not fk[j]) or abs(iv[j] - mod[j]) <= 1e-9 * abs(mod[j]) for j in range(len(iv)))
+                if not ok:
+                    dis.append({'what': "data['weights'] differs from model (std**-2 of the noise model at the "
+                                        "time of the first misfit; NOT refreshed by later noise-model changes)",
+                                'case': b, 'step': n, 'op': WH_DOC[st['op']],
+                                'impl': [float(x) for x in iv], 'model': [float(x) for x in mod]})
+                    return
+            if st['op'] == 'jtvec':
+                bw = [c for c in st['calls'] if 'sfield' in c[0]]
+                if len(bw) != nsf:
+                    dis.append({'what': 'jtvec issued an unexpected number of back-propagation solves',
+                                'case': b, 'step': n, 'impl': len(bw), 'model': nsf})
+                    return
+                mod = np.array(H.parse_c(sl[n]))
+                iv = np.array(bw[k][0]['sfield'].field)[rec['idxs'][k]]
+                scale = max(float(np.max(np.abs(iv))) if len(iv) else 0.0,
+                            float(np.max(np.abs(mod))) if len(mod) else 0.0, 1e-300)
+                if len(mod) != len(iv) or np.max(np.abs(mod - iv)) > 1e-9 * scale:
+                    kk = int(np.argmax(np.abs(mod - iv))) if len(mod) == len(iv) else -1
+                    dis.append({'what': 'jtvec after a history (weights cached, noise model changed): the source '
+                                        'handed to the back-propagation solve differs from model jt_source '
+                                        '(vector / cached weights * the same cached weights)',
+                                'case': b, 'step': n, 'srcfreq': k, 'impl': str(iv[kk]), 'model': str(mod[kk])})
+                    return
+
+
+def wh_numeric_hit(spec, rec, seed):
+    """Concrete failing history from the model-independent checks.  The
+    comparison with a fresh simulation needs no accurate solves (same solver
+    inputs give the same outputs); the dot-product test of the re-used object
+    only counts when the SAME test on fresh simulations passes ten times tighter
+    (adjoint sources touching PEC boundary edges make the solver report
+    stagnation although the interior is converged)."""
+    worst = 0.0
+    for nm in rec['numeric']:
+        dev = nm['max|JTw(re-used) - JTw(fresh)|/max|JTw(fresh)|']
+        dot_bad = nm['dot_relative'] > 1e-7 and nm['dot_relative_fresh_simulation'] < 1e-8
+        worst = max(worst, dev, nm['dot_relative'] if nm['dot_relative_fresh_simulation'] < 1e-8 else 0.0)
+        if dev > 1e-7 or dot_bad:
+            sig = ('jtvec after a noise-model change on a re-used simulation differs from jtvec of a fresh '
+                   'simulation (J^T w must not depend on the weights)' if dev > 1e-7 else
+                   'dot-product test Re<w,Jv> != <J^T w,v> after a history on one simulation')
+            return {'signature': sig, 'weights_history': [WH_DOC[o] for o in rec['ops'][:nm['step'] + 1]],
+                    'noise_mode': rec['mode'], 'klass': int(rec['klass']), 'spec': spec, 'seed': int(seed),
+                    'std_changes(max relative)': rec['std_changes'], 'observed': nm,
+                    'required': 'J^T w of the re-used simulation = J^T w of a fresh simulation and '
+                                'Re<w,Jv> = <J^T w,v>, both to 1e-7 (tight solves; fresh simulations pass '
+                                'the same dot test to 1e-8)'}, max(dev, nm['dot_relative'])
+    return None, worst
+
+
+def wh_spec(rng, off, i):
+    two_src = (i + off) % 2 == 0
+    sp = H.add_observed(H.gen_spec(rng, idx=off + 5 * i + 2, n_src=2 if two_src else 1,
+                                   n_freq=1 if two_src else 2, n_rec=2 + i % 2, max_pairs=2), rng)
+    if len(sp['freqs']) * len(sp['sources']) < 2:
+        sp['freqs'] = [1.0, 2.0]
+        sp['obs'] = None
+        sp = H.add_observed(sp, rng)
+    return sp
+
+
 def vt_validation(ctx, dis, n):
     """Section hypothesis V_T for non-'same' gridding: discretize's
     volume_average(...).T (used by the gradient) is the transpose of emg3d's
@@ -714,8 +1053,40 @@ def correspondence(ctx):
         t, im = direct_adj_case(np.random.RandomState(rng.randrange(2**31)))
         texts.append((f"c08_d_{i}", t))
         dimpls.append(im)
+    # weight book-keeping histories (round 6): every documented noise-model change,
+    # enumerated; cache-filling prefix and noise mode cycle with the seed
+    nw = 24 if ctx.thorough else len(WH_CHANGES)
+    woff = len(WH_CHANGES) * rng.randrange(3)
+    wcases = []
+    for i in range(nw):
+        sp = wh_spec(rng, off, i)
+        sd_ = rng.randrange(2**31)
+        t, rec_ = weights_history(sp, woff + i, sd_)
+        texts.append((f"c08_w_{i}", t))
+        wcases.append((sp, sd_, rec_))
     res = V.coq_eval_many(texts, timeout=1200)
     dis, seen, hist = [], set(), {}
+    for i, (sp, sd_, rec_) in enumerate(wcases):
+        rc, out = res[f"c08_w_{i}"]
+        if rc != 0:
+            dis.append({'what': 'weight-history model does not evaluate', 'case': wh_brief(sp, rec_),
+                        'log': out[-1500:]})
+            continue
+        compare_wh(sp, rec_, out, dis)
+        hit_, worst_ = wh_numeric_hit(sp, rec_, sd_)
+        if hit_:
+            dis.append({'what': hit_['signature'], 'case': wh_brief(sp, rec_),
+                        'impl': hit_['observed'], 'model': hit_['required']})
+        kind_ = next(o for o in rec_['ops'] if o in WH_CHANGES)
+        seen.add(('weights-history', kind_, rec_['mode'], tuple(rec_['ops'])))
+        for k_ in ('wh-change:' + kind_, 'wh-noise:' + rec_['mode'],
+                   'wh-prefix:' + '+'.join(rec_['ops'][:rec_['ops'].index(kind_)]),
+                   'wh-std-actually-changed' if any(c > 1e-3 for c in rec_['std_changes'])
+                   else 'wh-std-unchanged'):
+            hist[k_] = hist.get(k_, 0) + 1
+        hist['wh-jtvec-calls'] = hist.get('wh-jtvec-calls', 0) + len(rec_['numeric'])
+        if not rec_['converged']:
+            hist['wh-solver-reported-stagnation'] = hist.get('wh-solver-reported-stagnation', 0) + 1
     for i, sp in enumerate(specs):
         rc, out = res[f"c08_t_{i}"]
         if rc != 0:
@@ -782,7 +1153,7 @@ def correspondence(ctx):
     nv = vt_validation(ctx, dis, 40 if ctx.thorough else 12)
     hist['V_T validations'] = nv
     return {
-        'evaluations': len(specs) + nt + nd + 2 * na + nh + nv,
+        'evaluations': len(specs) + nt + nd + 2 * na + nh + nv + nw,
         'distinct_nontrivial': len(seen),
         'rule': "same-grid cases as for C07 (random stretched 4..5^3 grids, six maps, four anisotropy "
                 "cases, six source kinds, electric/magnetic absolute/relative receivers, NaN gaps, six "
@@ -798,11 +1169,18 @@ def correspondence(ctx):
                 "and with file_dir; V_T validations with non-zero output array; HISTORY cases (gridding input, one "
                 "automatic mode, same; thorough: all modes): one Simulation re-used after jvec, in-place model "
                 "update and clean('computed') vs a fresh Simulation of the updated model -- every solver "
-                "call's model (on the computational grid) and source, and the jvec / jtvec results, must agree. non-trivial = not "
-                "(Conductivity, isotropic, same grid)",
+                "call's model (on the computational grid) and source, and the jvec / jtvec results, must agree. "
+                "WEIGHT HISTORIES (round 6; quick 8 = every documented noise-model change once, thorough 24 = x 3 "
+                "noise modes / prefixes): one Simulation: cache-filling prefix (misfit | gradient | jvec | jtvec "
+                "| combinations), noise-model change (noise_floor / relative_error float or array, "
+                "standard_deviation array or None, new observed data, compute(observed=True)), jtvec(w), a second "
+                "change, jtvec(w'), clean('computed'), jtvec(w''): Coq Model/JtWeights.v `trace` on the same "
+                "history vs data['weights'] after every operation and the source of every back-propagation solve; "
+                "and, without the Coq model, every jtvec vs a fresh simulation and the dot-product test (tight "
+                "solves). non-trivial = not (Conductivity, isotropic, same grid)",
         'samples': [H.brief(s) for s in specs[:3]] + [dict(H.brief(s), gridding=im['mode'])
                                                       for s, im in zip(tspecs[:2], timpls[:2])],
-        'traces_validated_against_impl': len(specs) + nt + nd + 2 * na + nh,
+        'traces_validated_against_impl': len(specs) + nt + nd + 2 * na + nh + nw,
         'histogram': hist,
         'disagreements': dis,
     }
@@ -900,6 +1278,20 @@ def search(ctx, broken):
     hits = []
     off = rng.randrange(24)
     n = 5 if ctx.thorough else 3
+    # histories with noise-model changes between caching the weights and jtvec
+    woff = len(WH_CHANGES) * rng.randrange(3)
+    worst = 0.0
+    for i in range(24 if ctx.thorough else len(WH_CHANGES)):
+        sp = wh_spec(rng, off, i)
+        sd_ = rng.randrange(2**31)
+        _t, rec_ = weights_history(sp, woff + i, sd_, want_coq=False)
+        hit, err = wh_numeric_hit(sp, rec_, sd_)
+        worst = max(worst, err)
+        if hit:
+            ctx.notes.append(f"weights-history klass={woff + i}: defect={err:.2e}")
+            hits.append(hit)
+            return hits
+    ctx.notes.append(f"weights-history tests: worst defect={worst:.2e}")
     for i, mode in enumerate(['input', 'single', 'both', 'dict', 'frequency', 'source', 'same']
                              if ctx.thorough else ['input', 'single', 'both']):
         spec = H.add_observed(H.gen_spec(rng, idx=off + 13 * i + 4, n_src=2 if i % 2 else 1,
@@ -932,6 +1324,10 @@ def replay(ctx, payload):
     fi = payload.get('failing_input')
     if not fi or 'spec' not in fi:
         return False
+    if 'weights_history' in fi:
+        _t, rec_ = weights_history(fi['spec'], fi['klass'], fi['seed'], want_coq=False)
+        hit, _ = wh_numeric_hit(fi['spec'], rec_, fi['seed'])
+        return hit is None
     if 'history' in fi:
         hit, _ = history_dot_case(fi['spec'], fi['gridding'], fi['seed'])
     elif 'gridding' in fi:
